@@ -204,7 +204,9 @@ func budgetOf(p core.Property, tier string) (int, int, int) {
 }
 
 func markerPath(prop string, w int) string {
-	return filepath.Join(verifDir(), ".build", fmt.Sprintf("case-%s-%d.marker", prop, w))
+	d := filepath.Join(outDir(), ".build")
+	_ = os.MkdirAll(d, 0o755)
+	return filepath.Join(d, fmt.Sprintf("case-%s-%d.marker", prop, w))
 }
 
 func replayPath(prop, sig string) string {
